@@ -99,3 +99,15 @@ def class_attr_alias(relpath, clsname, attr):
                         and st.targets[0].id == attr and isinstance(st.value, ast.Name):
                     return st.value.id
     return None
+
+
+def module_assign(relpath, name):
+    """The value expression of the module-level assignment `name = <expr>` (last one), as AST."""
+    src, tree = parse_file(relpath)
+    found = None
+    for st in tree.body:
+        if isinstance(st, ast.Assign) and len(st.targets) == 1 and isinstance(st.targets[0], ast.Name) and st.targets[0].id == name:
+            found = st.value
+    if found is None:
+        raise ExtractionError('%s: no module-level assignment of %s' % (relpath, name))
+    return found
